@@ -112,7 +112,7 @@ func BuildReleaseControlInfo(release *v1beta1.BatchRelease) string {
 // For examples:
 // * Given stableReplicas 1,  allReplicas 3,   return "33%";
 // * Given stableReplicas 98, allReplicas 99,  return "97%";
-// * Given stableReplicas 1,  allReplicas 101, return "1%";
+// * Given stableReplicas 1,  allReplicas 101, return 1 (no percentage restores to 1 of 101);
 func ParseIntegerAsPercentageIfPossible(stableReplicas, allReplicas int32, canaryReplicas *intstr.IntOrString) intstr.IntOrString {
 	if stableReplicas >= allReplicas {
 		return intstr.FromString("100%")
@@ -128,7 +128,10 @@ func ParseIntegerAsPercentageIfPossible(stableReplicas, allReplicas int32, canar
 	// restoredStableReplicas == 0 is un-tolerated if user-defined canaryReplicas is not 100%.
 	// we must make sure that at least one canary pod is created.
 	if restoredStableReplicas <= 0 && canaryReplicas.StrVal != "100%" {
-		return intstr.FromString("1%")
+		// 0 < stableReplicas < 1% of allReplicas: no whole percentage restores to stableReplicas.
+		// "1%" would keep ⌈allReplicas/100⌉ > stableReplicas pods on the stable revision, i.e. fewer
+		// updated pods than the batch is waiting for, so fall back to the absolute number.
+		return intstr.FromInt(int(stableReplicas))
 	}
 
 	return percent
